@@ -372,6 +372,8 @@ static void collect_stats(const Desc& d, const Plan& plan, const World& real, Ru
                 if (r.kind == K_NT) mask |= 1u << 9;
                 if (r.kind == K_N && r.site < (int)d.states.size() && d.states[r.site].kind == SK_SUB && ++own_entries[r.site] >= 2) mask |= 1u << 13;
             }
+            if (r.kind == K_X && r.occ >= 0) mask |= 1u << 15;
+            if (r.kind == K_RET && (r.val & 1) && &r != &real.env.trace[0] && (&r)[-1].kind == K_OP) mask |= 1u << 16;
             if (r.kind == K_Q && (r.val & 0xffff)) mask |= 1u << 2;
             if (r.kind == K_Q && (r.val >> 16)) mask |= 1u << 12;
             if (r.kind == K_POST) mask |= 1u << 4;
@@ -395,6 +397,7 @@ Outcome evaluate(const Desc& d, const Variant& v, const Profile& pf, const Plan&
     Outcome o;
     o.plan = plan;
     Dialect dl = dialect_of(v);
+    if (pf.strict_model) dl.q_mp_action_defer_requeue = false;
     World real(d, [&](int) { return v.make(); }, false);
     World model(d, [&](int r) { return (IMachine*)new Model(d, dl, r); }, true);
     real.observe_each = model.observe_each = pf.observe_each;
@@ -505,6 +508,108 @@ Outcome shrink(const Desc& d, const Variant& v, const Profile& pf, const Plan& p
             c.ops[k].kind = OP_PROCESS;
             try_plan(c);
         }
+    }
+    return best;
+}
+
+// ---------------------------------------------------------------------------------------------
+// differential oracle
+static std::vector<Rec> normalise(const Desc& d, const std::vector<Rec>& t, const std::string& mode) {
+    std::vector<Rec> out;
+    out.reserve(t.size());
+    for (const Rec& r0 : t) {
+        Rec r = r0;
+        r.aux = 0;
+        if (mode == "backend" || mode == "frontend") {
+            // back re-tries completion rows after every handled event, backmp11 only on entry: a false
+            // re-evaluation is not an observable difference (C13 quantifier: guards fixed per entry)
+            if (r.kind == K_G && r.site < (int)d.leaf_is_completion.size() && d.leaf_is_completion[r.site] && r.val == 0) continue;
+            if (r.kind == K_RET) r.val = (r.val & 1) | (r.val == 0 ? 2 : 0);     // handled / zero status
+            if (r.kind == K_Q) r.val = (r.val >> 16) + (r.val & 0xffff);           // total pending, however it is stored
+            if (r.kind == K_FLAG) r.val &= 1;                                       // OR form only
+            if (r.kind == K_VIS || r.kind == K_ACT) continue;                       // back-end specific introspection
+        }
+        if (mode == "policy") {
+            // the policies differ only in what behaviours observe inside a transition
+            if (r.kind <= K_EC) r.obs = 0;
+        }
+        out.push_back(r);
+    }
+    return out;
+}
+
+Outcome evaluate_diff(const Desc& d, const std::vector<const Variant*>& vs, const Profile& pf, const Plan& plan,
+                      const std::string& mode, RunStats* st) {
+    Outcome o;
+    o.plan = plan;
+    std::vector<std::vector<Rec>> traces;
+    std::vector<std::vector<size_t>> opidx;
+    for (size_t k = 0; k < vs.size(); ++k) {
+        World w(d, [&](int) { return vs[k]->make(); }, false);
+        w.observe_each = pf.observe_each;
+        w.run(plan);
+        if (k == 0) {
+            o.hash_real = trace_hash(w.env.trace);
+            if (st) collect_stats(d, plan, w, *st);
+            Outcome inv = o;
+            if (!check_invariants(d, plan, w, inv)) { /* reported by the lockstep checks */ }
+        }
+        if (w.aborted) { Rec r; r.kind = K_ESC; r.val = 1; w.env.trace.push_back(r); }
+        traces.push_back(normalise(d, w.env.trace, mode));
+    }
+    for (size_t k = 1; k < vs.size(); ++k) {
+        const auto& a = traces[0];
+        const auto& b = traces[k];
+        size_t n = std::min(a.size(), b.size()), i = 0;
+        for (; i < n; ++i) if (a[i] != b[i]) break;
+        if (i == n && a.size() == b.size()) continue;
+        o.verdict = V_DIVERGED;
+        o.dv.diverged = true;
+        o.dv.index = i;
+        o.dv.op = -1;
+        for (size_t q = 0; q <= i && q < a.size(); ++q) if (a[q].kind == K_OP) o.dv.op = a[q].site;
+        o.level = "DIFF";
+        o.props = {mode == "backend" ? "C13" : mode == "policy" ? "C19" : "C14"};
+        std::string ka = i < a.size() ? kind_name(a[i].kind) : "end", kb = i < b.size() ? kind_name(b[i].kind) : "end";
+        o.detail = vs[0]->name + " vs " + vs[k]->name + ": normalised traces differ at a " + ka + " / " + kb + " record";
+        size_t lo = i > 12 ? i - 12 : 0;
+        for (size_t q = lo; q < i + 4; ++q) {
+            if (q < a.size()) o.expected.push_back(a[q]);
+            if (q < b.size()) o.observed.push_back(b[q]);
+        }
+        if (st) st->diverged++;
+        break;
+    }
+    return o;
+}
+
+Outcome shrink_diff(const Desc& d, const std::vector<const Variant*>& vs, const Profile& pf, const Plan& plan,
+                    const std::string& mode, const Outcome& first) {
+    Outcome best = first;
+    best.plan = plan;
+    int budget = 300;
+    auto try_plan = [&](const Plan& cand) -> bool {
+        if (budget-- <= 0) return false;
+        Outcome o = evaluate_diff(d, vs, pf, cand, mode, nullptr);
+        if (o.verdict != V_OK && o.detail == first.detail) { best = o; best.plan = cand; return true; }
+        return false;
+    };
+    if (best.dv.op >= 0 && best.dv.op + 1 < (int)best.plan.ops.size()) { Plan c = best.plan; c.ops.resize(best.dv.op + 1); try_plan(c); }
+    for (size_t chunk = std::max<size_t>(1, best.plan.ops.size() / 2); chunk >= 1; chunk /= 2) {
+        bool progress = true;
+        while (progress && budget > 0) {
+            progress = false;
+            for (size_t at = 1; at + chunk <= best.plan.ops.size(); ) {
+                Plan c = best.plan;
+                c.ops.erase(c.ops.begin() + at, c.ops.begin() + at + chunk);
+                if (try_plan(c)) progress = true; else at += chunk;
+            }
+        }
+        if (chunk == 1) break;
+    }
+    for (size_t k = 0; k < best.plan.ops.size(); ++k) {
+        for (size_t j = 0; j < best.plan.ops[k].posts.size(); ) { Plan c = best.plan; c.ops[k].posts.erase(c.ops[k].posts.begin() + j); if (!try_plan(c)) ++j; }
+        for (size_t j = 0; j < best.plan.ops[k].throws.size(); ) { Plan c = best.plan; c.ops[k].throws.erase(c.ops[k].throws.begin() + j); if (!try_plan(c)) ++j; }
     }
     return best;
 }
